@@ -90,8 +90,14 @@ Definition R_expr_list (l : expr_list) := sup_expr_list ns l = true ->
 Definition R_rel_path (l : rel_path) := sup_rel_path ns l = true -> forall (nodes lc : list node) c,
   Forall T nodes -> (forall x, In x lc <-> In x nodes) -> cok c ->
   rrel setrel c (flat_map_m (eval_rel_path doc l) nodes c) (s_rel_path doc ns l (map Row lc)).
-Definition R_stepop_list (l : stepop_list) := sup_stepop_list ns l = true -> forall (nodes : list node) c, Forall T nodes -> cok c ->
-  rrel setrel c (eval_stepops doc l nodes c) (s_stepops doc ns l (map Row (n_nodeset nodes))).
+Definition R_stepop_list (l : stepop_list) := sup_stepop_list ns l = true ->
+  (forall (nodes : list node) c, Forall T nodes -> cok c ->
+     rrel setrel c (eval_stepops doc l nodes c) (s_stepops doc ns l (map Row (n_nodeset nodes)))) /\
+  (* the operations distribute over a cover of the start list (the model de-duplicates after every
+     step, so only as sets) *)
+  (forall (l0 l1 l2 : list node) c, Forall T l0 -> Forall T l1 -> Forall T l2 -> cok c ->
+     (forall x, In x l0 <-> In x l1 \/ In x l2) ->
+     distr (okv (eval_stepops doc l l0) c) (okv (eval_stepops doc l l1) c) (okv (eval_stepops doc l l2) c)).
 Definition R_step (s : step) := sup_step ns s = true -> forall n c, T n -> cok c ->
   rrel steprel c (eval_step doc s n c) (s_step doc ns s (Row n)).
 
@@ -132,6 +138,81 @@ Proof.
     intros x. rewrite n_nodeset_in, !in_flat_map. split; intros [s [Hs Hx]]; exists s; (split; [apply n_nodeset_in; exact Hs|exact Hx]) || (split; [apply (proj1 (n_nodeset_in s nodes)); exact Hs|exact Hx]).
 Qed.
 
+(** the start list of a step operation, explicitly *)
+Definition from_list (op : lp_op) (nodes : list node) : list node :=
+  match op with LpCurrent => nodes | LpDescendantOrSelfNode => flat_map (fun s => s :: D s) nodes end.
+
+Lemma from_model op (nodes : list node) : Forall T nodes ->
+  match op with
+  | LpCurrent => Ok nodes
+  | LpDescendantOrSelfNode => flat_map_res (descendant_and_self doc) nodes
+  end = Ok (from_list op nodes) /\ Forall T (from_list op nodes).
+Proof.
+  intros Ht. destruct op; cbn [from_list]; [split; [reflexivity|exact Ht]|apply dslash_rel; exact Ht].
+Qed.
+
+Lemma from_list_cover op (l0 l1 l2 : list node) : (forall x, In x l0 <-> In x l1 \/ In x l2) ->
+  forall x, In x (from_list op l0) <-> In x (from_list op l1) \/ In x (from_list op l2).
+Proof.
+  intros H x. destruct op; cbn [from_list]; [apply H|]. rewrite !in_flat_map. split.
+  - intros [w [Hw Hx]]. apply H in Hw. destruct Hw as [Hw|Hw]; [left|right]; exists w; split; assumption.
+  - intros [[w [Hw Hx]]|[w [Hw Hx]]]; exists w; (split; [apply H; auto|exact Hx]).
+Qed.
+
+(** the step loop over tree nodes, in the option view *)
+Lemma step_loop_T s (nodes : list node) c : R_step s -> sup_step ns s = true -> Forall T nodes -> cok c ->
+  match okv (flat_map_m (eval_step doc s) nodes) c with Some coll => Forall T coll | None => True end.
+Proof.
+  intros Hs S1 Ht Hc.
+  pose proof (flat_map_m_steps doc (eval_step doc s) (s_step doc ns s) c nodes) as H.
+  assert (Hn : forall n, In n nodes -> rrel steprel c (eval_step doc s n c) (s_step doc ns s (Row n))).
+  { intros n Hn. rewrite Forall_forall in Ht. apply (Hs S1 n c (Ht n Hn) Hc). }
+  specialize (H Hn). apply okv_rrel in H. destruct (okv (flat_map_m (eval_step doc s) nodes) c); [|exact I].
+  destruct H as [rs [_ [_ Hr]]]. exact Hr.
+Qed.
+
+(** a relative path from a start list against "all first steps, then the operations on what they
+    collected": defined together, the same elements *)
+Lemma rel_path_split_set s ops : R_step s -> sup_step ns s = true -> R_stepop_list ops -> sup_stepop_list ns ops = true ->
+  forall (nodes : list node) c, Forall T nodes -> cok c ->
+  match okv (flat_map_m (eval_rel_path doc (ERelPath s ops)) nodes) c,
+        obind (okv (flat_map_m (eval_step doc s) nodes) c) (fun coll => okv (eval_stepops doc ops coll) c) with
+  | Some r, Some r' => forall x, In x r <-> In x r'
+  | None, None => True
+  | _, _ => False
+  end.
+Proof.
+  intros Hs S1 Hops S2 nodes c Ht Hc. destruct (Hops S2) as [_ HB].
+  assert (Hstep : forall x, restores (eval_step doc s x)) by (intros x; apply restores_all_step).
+  assert (Hrp : forall x, restores (eval_rel_path doc (ERelPath s ops) x)) by (intros x; apply restores_all_rel_path).
+  induction nodes as [|n t IH].
+  - change (okv (flat_map_m (eval_rel_path doc (ERelPath s ops)) []) c) with (Some (@nil node)).
+    change (okv (flat_map_m (eval_step doc s) []) c) with (Some (@nil node)). cbn [obind].
+    rewrite stepops_empty. intros x. reflexivity.
+  - inversion Ht as [|n' t' Tn Tt]; subst. specialize (IH Tt).
+    rewrite (okv_flat_map_m_cons _ n t c Hrp), (okv_flat_map_m_cons _ n t c Hstep).
+    rewrite eval_rel_path_eq, okv_bind by apply Hstep.
+    pose proof (step_loop_T s [n] c Hs S1 (Forall_cons _ Tn (Forall_nil _)) Hc) as Hrn.
+    rewrite (okv_flat_map_m_cons _ n [] c Hstep) in Hrn.
+    change (okv (flat_map_m (eval_step doc s) []) c) with (Some (@nil node)) in Hrn.
+    pose proof (step_loop_T s t c Hs S1 Tt Hc) as Hb.
+    destruct (okv (eval_step doc s n) c) as [rn|]; cbn [obind] in *; [|exact I].
+    rewrite app_nil_r in Hrn.
+    destruct (okv (flat_map_m (eval_step doc s) t) c) as [b|]; cbn [obind] in *.
+    + assert (Hcover : forall x, In x (rn ++ b) <-> In x rn \/ In x b) by (intros x; apply in_app_iff).
+      pose proof (HB (rn ++ b) rn b c (proj2 (Forall_app _ _ _) (conj Hrn Hb)) Hrn Hb Hc Hcover) as Hd. unfold distr in Hd.
+      destruct (okv (eval_stepops doc ops (rn ++ b)) c) as [r|].
+      * destruct Hd as [r1 [r2 [E1 [E2 Hr]]]]. rewrite E1. cbn [obind]. rewrite E2 in IH.
+        destruct (okv (flat_map_m (eval_rel_path doc (ERelPath s ops)) t) c) as [r2'|]; [|destruct IH]. cbn [obind].
+        intros x. rewrite in_app_iff, Hr, IH. reflexivity.
+      * destruct Hd as [E|E].
+        -- rewrite E. exact I.
+        -- rewrite E in IH. destruct (okv (flat_map_m (eval_rel_path doc (ERelPath s ops)) t) c); [destruct IH|].
+           destruct (okv (eval_stepops doc ops rn) c); exact I.
+    + destruct (okv (flat_map_m (eval_rel_path doc (ERelPath s ops)) t) c); [destruct IH|].
+      destruct (okv (eval_stepops doc ops rn) c); exact I.
+Qed.
+
 (** a relative path from a start list, given its first step and its operations *)
 Lemma rel_path_agrees s ops : R_step s -> R_stepop_list ops -> R_rel_path (ERelPath s ops).
 Proof.
@@ -142,12 +223,21 @@ Proof.
   { apply (step_loop_agrees doc (eval_step doc s) (s_step doc ns s) c nodes lc); [|exact Hlc].
     intros n Hn. rewrite Forall_forall in Ht. apply (Hs S1 n c (Ht n Hn) Hc). }
   apply rrel_okv; [apply restores_flat_map_m; intros x; apply restores_all_rel_path|].
-  rewrite rel_path_split. apply okv_rrel in Hloop.
-  destruct (okv (flat_map_m (eval_step doc s) nodes) c) as [coll|]; cbn [obind].
+  pose proof (rel_path_split_set s ops Hs S1 Hops S2 nodes c Ht Hc) as Hsplit. apply okv_rrel in Hloop.
+  destruct (Hops S2) as [HA _].
+  destruct (okv (flat_map_m (eval_step doc s) nodes) c) as [coll|]; cbn [obind] in Hsplit.
   - destruct Hloop as [rs [Ers [Hcoll ->]]].
-    destruct (opt_flat_map (s_step doc ns s) (map Row lc)) as [r|]; [|discriminate]. inversion Ers as [Er]. rewrite Er.
-    apply okv_rrel. apply (Hops S2 coll c Hcoll Hc).
-  - destruct (opt_flat_map (s_step doc ns s) (map Row lc)); [discriminate|reflexivity].
+    destruct (opt_flat_map (s_step doc ns s) (map Row lc)) as [r0|]; [|discriminate]. inversion Ers as [Er]. rewrite Er.
+    pose proof (okv_rrel _ _ _ _ (HA coll c Hcoll Hc)) as H2.
+    destruct (okv (eval_stepops doc ops coll) c) as [r'|].
+    + destruct H2 as [rs' [Ers' [Hr' ->]]].
+      destruct (okv (flat_map_m (eval_rel_path doc (ERelPath s ops)) nodes) c) as [r|]; [|destruct Hsplit].
+      exists (map Row (n_nodeset r')). split; [exact Ers'|]. split.
+      * apply Forall_forall. intros x Hx. rewrite Forall_forall in Hr'. apply Hr'. apply Hsplit. exact Hx.
+      * f_equal. apply n_nodeset_same. intros x. symmetry. apply Hsplit.
+    + destruct (okv (flat_map_m (eval_rel_path doc (ERelPath s ops)) nodes) c); [destruct Hsplit|exact H2].
+  - destruct (okv (flat_map_m (eval_rel_path doc (ERelPath s ops)) nodes) c); [destruct Hsplit|].
+    destruct (opt_flat_map (s_step doc ns s) (map Row lc)); [discriminate|reflexivity].
 Qed.
 
 Lemma cok_push_position k c : cok c -> cok (push_position k c).
@@ -484,23 +574,47 @@ Proof.
   - (* ERelPath *)
     intros s Hs ops Hops. apply rel_path_agrees; assumption.
   - (* StepopNil *)
-    intros _ nodes c Ht Hc. rewrite eval_stepops_nil, s_stepops_nil'. apply rrel_ret. split; [exact Ht|reflexivity].
+    intros _. split.
+    + intros nodes c Ht Hc. rewrite eval_stepops_nil, s_stepops_nil'. apply rrel_ret. split; [exact Ht|reflexivity].
+    + intros l0 l1 l2 c _ _ _ _ Hcov. rewrite !eval_stepops_nil. unfold distr. cbn [okv ret fst].
+      exists l1, l2. split; [reflexivity|]. split; [reflexivity|exact Hcov].
   - (* StepopCons *)
-    intros op s Hs t Ht Hsup nodes c Hnodes Hc. cbn [sup_stepop_list] in Hsup. apply andb_split in Hsup. destruct Hsup as [S1 S2].
-    rewrite eval_stepops_cons, s_stepops_cons'.
-    destruct (from_agree op nodes Hnodes) as [from [lc [Ef [Hfrom [Es Hlc]]]]].
-    unfold bindM at 1. unfold lift. rewrite Ef, Es.
-    assert (Hloop : rrel setrel c (flat_map_m (eval_step doc s) from c)
-                      (match opt_flat_map (s_step doc ns s) (map Row lc) with Some r => Some (nodeset doc r) | None => None end)).
-    { apply (step_loop_agrees doc (eval_step doc s) (s_step doc ns s) c from lc); [|exact Hlc].
-      intros n Hn. rewrite Forall_forall in Hfrom. apply (Hs S1 n c (Hfrom n Hn) Hc). }
-    unfold bindM. destruct (flat_map_m (eval_step doc s) from c) as [[coll|e| |] c1]; cbn [rrel] in Hloop.
-    + destruct Hloop as [-> [rs [Ers [Hcoll ->]]]].
-      destruct (opt_flat_map (s_step doc ns s) (map Row lc)) as [r|]; [|discriminate]. inversion Ers as [Er]. rewrite Er.
-      apply (Ht S2 coll c Hcoll Hc).
-    + destruct (opt_flat_map (s_step doc ns s) (map Row lc)); [discriminate|reflexivity].
-    + destruct (opt_flat_map (s_step doc ns s) (map Row lc)); [discriminate|reflexivity].
-    + destruct (opt_flat_map (s_step doc ns s) (map Row lc)); [discriminate|reflexivity].
+    intros op s Hs t Ht Hsup. cbn [sup_stepop_list] in Hsup. apply andb_split in Hsup. destruct Hsup as [S1 S2].
+    destruct (Ht S2) as [HtA HtB]. split.
+    + intros nodes c Hnodes Hc. rewrite eval_stepops_cons, s_stepops_cons'.
+      destruct (from_agree op nodes Hnodes) as [from [lc [Ef [Hfrom [Es Hlc]]]]].
+      unfold bindM at 1. unfold lift. rewrite Ef, Es.
+      assert (Hloop : rrel setrel c (flat_map_m (eval_step doc s) from c)
+                        (match opt_flat_map (s_step doc ns s) (map Row lc) with Some r => Some (nodeset doc r) | None => None end)).
+      { apply (step_loop_agrees doc (eval_step doc s) (s_step doc ns s) c from lc); [|exact Hlc].
+        intros n Hn. rewrite Forall_forall in Hfrom. apply (Hs S1 n c (Hfrom n Hn) Hc). }
+      unfold bindM. destruct (flat_map_m (eval_step doc s) from c) as [[coll|e| |] c1]; cbn [rrel] in Hloop.
+      * destruct Hloop as [-> [rs [Ers [Hcoll ->]]]].
+        destruct (opt_flat_map (s_step doc ns s) (map Row lc)) as [r|]; [|discriminate]. inversion Ers as [Er]. rewrite Er.
+        destruct (step_dedup_T doc Hinv Hshape coll Hcoll) as [Hdd Tdd].
+        rewrite <- (n_nodeset_same (step_dedup doc coll) coll Hdd).
+        apply (HtA (step_dedup doc coll) c Tdd Hc).
+      * destruct (opt_flat_map (s_step doc ns s) (map Row lc)); [discriminate|reflexivity].
+      * destruct (opt_flat_map (s_step doc ns s) (map Row lc)); [discriminate|reflexivity].
+      * destruct (opt_flat_map (s_step doc ns s) (map Row lc)); [discriminate|reflexivity].
+    + intros l0 l1 l2 c T0 T1 T2 Hc Hcov. rewrite !eval_stepops_cons.
+      assert (Hstep : forall x, restores (eval_step doc s x)) by (intros x; apply restores_all_step).
+      assert (Hfm : forall l, restores (flat_map_m (eval_step doc s) l)) by (intros l; apply restores_flat_map_m; exact Hstep).
+      destruct (from_model op l0 T0) as [E0 F0]. destruct (from_model op l1 T1) as [E1 F1]. destruct (from_model op l2 T2) as [E2 F2].
+      rewrite !okv_bind by apply restores_lift. rewrite !okv_lift, E0, E1, E2. cbn [obind].
+      rewrite !okv_bind by apply Hfm.
+      pose proof (flat_map_m_distr (eval_step doc s) _ _ _ c Hstep (from_list_cover op l0 l1 l2 Hcov)) as Hd.
+      pose proof (step_loop_T s (from_list op l0) c Hs S1 F0 Hc) as G0.
+      pose proof (step_loop_T s (from_list op l1) c Hs S1 F1 Hc) as G1.
+      pose proof (step_loop_T s (from_list op l2) c Hs S1 F2 Hc) as G2.
+      unfold distr in Hd.
+      destruct (okv (flat_map_m (eval_step doc s) (from_list op l0)) c) as [c0|]; cbn [obind].
+      * destruct Hd as [c1 [c2 [Ec1 [Ec2 Hc12]]]]. rewrite Ec1, Ec2 in *. cbn [obind].
+        destruct (step_dedup_T doc Hinv Hshape c0 G0) as [D0 TD0].
+        destruct (step_dedup_T doc Hinv Hshape c1 G1) as [D1 TD1].
+        destruct (step_dedup_T doc Hinv Hshape c2 G2) as [D2 TD2].
+        apply (HtB _ _ _ c TD0 TD1 TD2 Hc). intros x. rewrite D0, D1, D2. apply Hc12.
+      * unfold distr. destruct Hd as [E|E]; rewrite E; cbn [obind]; [left; reflexivity|right; reflexivity].
   - (* StepTest *)
     intros a t preds Hpreds Hsup n c Tn Hc. cbn [sup_step] in Hsup. apply andb_split in Hsup. destruct Hsup as [Hsup S3].
     apply andb_split in Hsup. destruct Hsup as [S1 S2].
